@@ -98,6 +98,11 @@ class Director:
                 d._send(conn, 0.1, b"\x5a\x5a\x01\x11\x48\x00" + bytes(range(66)))
         elif mode == "close":
             tr.peer_close(0.1)
+        elif mode == "verylate":
+            # answered properly, but only after all retransmissions have timed out
+            reply = d._proper_reply(conn, req)
+            if reply:
+                d._send(conn, 7.037, reply)
         elif mode == "partial":
             # the beginning of a packet that announces 65,520 more bytes and never completes
             d._send(conn, 0.1, b"\x83\x70\xff\xf0\x20\x01" + bytes(range(10)))
